@@ -56,7 +56,7 @@ def preload(spec):
     return wc
 
 
-def run_batch(prop, tier, verif_seed, n_runs, jobs, first=0, no_known=False, wall_cap=None, quiet=False):
+def run_batch(prop, tier, verif_seed, n_runs, jobs, first=0, no_known=False, wall_cap=None, quiet=False, max_distinct=3):
     spec = PROPS[prop]
     tcfg = spec["tiers"][tier]
     wc = preload(spec["world"])
@@ -117,7 +117,7 @@ def run_batch(prop, tier, verif_seed, n_runs, jobs, first=0, no_known=False, wal
                         if r["verdict"] == "violation":
                             v = r["violation"]
                             distinct_viol.setdefault((v["property"], v["kind"], v["site"]), r)
-                    if len(distinct_viol) >= 3:
+                    if len(distinct_viol) >= max_distinct:
                         stop_submitting = True
                 except Exception as e:
                     harness_errors.append(f"worker died on runs {ch}: {type(e).__name__}: {e}")
@@ -248,6 +248,8 @@ def main(argv=None):
     ap.add_argument("--no-evidence", action="store_true")
     ap.add_argument("--quiet", action="store_true")
     ap.add_argument("--digest-only", action="store_true", help="print per-run digests (determinism self-test)")
+    ap.add_argument("--max-distinct", type=int, default=3, help="stop starting runs after this many distinct violations")
+    ap.add_argument("--only", default=None, help="self-tests: comma-separated mutant ids / substrings")
     ap.add_argument("rest", nargs="*")
     a = ap.parse_args(argv)
 
@@ -261,7 +263,7 @@ def main(argv=None):
         return cmd_replay(a.prop, a.replay, a.quiet)
     print(f"VERIF_SEED={a.seed} property={a.prop} tier={a.tier} jobs={a.jobs} PYTHONHASHSEED={os.environ.get('PYTHONHASHSEED')}")
     sys.stdout.flush()
-    batch = run_batch(a.prop, a.tier, a.seed, a.runs, a.jobs, first=a.first, no_known=a.no_known)
+    batch = run_batch(a.prop, a.tier, a.seed, a.runs, a.jobs, first=a.first, no_known=a.no_known, max_distinct=a.max_distinct)
     if a.digest_only:
         for r in batch["results"]:
             print(r["index"], r["run_seed"], r["verdict"], r["digest"])
